@@ -148,3 +148,24 @@ Definition prefix_point (n : Z) : nat * nat :=
    an unreadable one makes open fail *)
 Definition load_view (v : option (list Z)) : res catalog :=
   match v with Some f => load_file f | None => Ok base_catalog end.
+
+(* ---- the property's reading of "does not lose tables or indexes that existed before":
+   every table of [old], and every index of it by name, is in the catalog that loads *)
+Definition table_kept (c : catalog) (sn : str) (t : table) : bool :=
+  match find_table c sn (t_name t) with
+  | Some t' => forallb (fun i => existsb (fun i' => zlist_eqb (ix_name i') (ix_name i)) (t_indexes t')) (t_indexes t)
+  | None => false
+  end.
+Definition keeps_old (old : catalog) (r : res catalog) : bool :=
+  match r with
+  | Ok c => forallb (fun s => forallb (table_kept c (s_name s)) (s_tables s)) old
+  | _ => false
+  end.
+
+(* a small concrete history: table t1 (with an index) exists, CREATE TABLE t2 is executed *)
+Definition ex_t1 : table :=
+  Table 3 [116;49] [Column [105;100] 2 [CPrimaryKey; CNotNull] None None; Column [110;97;109;101] 20 [] (Some [120]) None]
+        None [Index [105;100;95;112;107;101;121] [IdxCol (ICColumn [105;100]) false] true false None] (Some 4).
+Definition ex_t2 : table := Table 5 [116;50] [Column [105;100] 2 [] None None] None [] None.
+Definition ex_old : catalog := [Schema 0 name_root [ex_t1]; Schema 1 name_syscat []].
+Definition ex_new : catalog := [Schema 0 name_root [ex_t1; ex_t2]; Schema 1 name_syscat []].
